@@ -1019,11 +1019,20 @@ impl<Backing : AsRef<[u32]> + AsMut<[u32]>> DrawTarget<Backing> {
     pub fn composite_surface<F: Fn(&[u32], &mut [u32]), SrcBacking: AsRef<[u32]>>(&mut self, src: &DrawTarget<SrcBacking>, src_rect: IntRect, dst: IntPoint, f: F) {
         let dst_rect = intrect(0, 0, self.width, self.height);
 
-        // the offset from source to destination coordinates: `src_rect.min` lands on `dst`
-        let offset = dst - src_rect.min;
+        // the offset from source to destination coordinates: `src_rect.min` lands on `dst`.
+        // Beyond the sizes of the two surfaces every source pixel lands outside of the destination
+        // whatever the exact value is, so it is limited to that range: `src_rect` and `dst` can
+        // then be arbitrarily far away without overflowing the arithmetic below
+        let offset = vec2(
+            dst.x.saturating_sub(src_rect.min.x).max(-src.width).min(self.width),
+            dst.y.saturating_sub(src_rect.min.y).max(-src.height).min(self.height),
+        );
 
         // intersect the src_rect with the source size so that we don't go out of bounds
         let src_rect = src_rect.intersection_unchecked(&intrect(0, 0, src.width, src.height));
+        if src_rect.is_empty() {
+            return;
+        }
 
         // and with the destination, keeping only the pixels that land inside it
         let src_rect = dst_rect
